@@ -1,4 +1,5 @@
 //! Runtime monitors for synth-utils-rs. See /verif/DESIGN.md.
+pub mod adsr;
 pub mod json;
 pub mod lfo;
 pub mod replay;
@@ -10,6 +11,7 @@ use report::{Ctx, Report, Violation};
 /// run the full workload of one property
 pub fn run_property(ctx: &Ctx, prop: &str) -> Result<Report, String> {
     match prop {
+        "C01" | "C02" | "C03" => Ok(adsr::run(ctx, prop)),
         "C10" | "C11" | "C12" => Ok(lfo::run(ctx, prop)),
         _ => Err(format!("unknown property '{}'", prop)),
     }
@@ -21,6 +23,7 @@ pub fn replay_property(prop: &str, text: &str, rep: &mut Report) -> Result<Optio
     let module = t.get("module")?.to_string();
     match module.as_str() {
         "lfo" => lfo::replay(&t, prop, rep),
+        "adsr" => adsr::replay(&t, prop, rep),
         m => Err(format!("unknown replay module '{}'", m)),
     }
 }
